@@ -132,8 +132,13 @@ def check_C06(chk, tier, seed):
         frames = [msgs[i][1] for i in fi]
         withavp = [m for m in msgs if len(m[1]) > 28]
         b = bytearray(frames[pos])
-        kind = k % 4
-        if kind == 0:
+        kind = k % 5
+        vers = None
+        if kind == 4:
+            # the first octet (Version) is not 1: the reader frames by the length, the decoder has never looked at the version - yielded
+            vers = [0, 2, 3, 0xff][(k // 5) % 4]
+            b[0] = vers
+        elif kind == 0:
             b[5:8] = gen.be(316, 3)
         elif kind == 1:
             b[8:12] = gen.be(16777251, 4)
@@ -148,7 +153,10 @@ def check_C06(chk, tier, seed):
         want, cum = [], 0
         for j, i in enumerate(fi):
             cum += len(frames[j])
-            want.append(f"[ERR @{cum}]" if j == pos else f"[OK {msgs[i][2]} @{cum}]")
+            if j == pos and vers is not None:
+                want.append(f"[OK M {hx(vers)} " + msgs[i][2].split(" ", 2)[2] + f" @{cum}]")
+            else:
+                want.append(f"[ERR @{cum}]" if j == pos else f"[OK {msgs[i][2]} @{cum}]")
         want.append(f"[EOF @{len(stream)}]")
         chunks = [[stream], [stream[i:i + 1] for i in range(len(stream))], random_chunking(r, stream)][(k // 4) % 3]
         cases.append(f"SD g {len(fi) + 1} {rs(chunks, 'e')}")
@@ -566,7 +574,9 @@ def server_scenarios(rng, eng, msgs, n, tier):
         e2e = [0x7000 + k % 4, r.below(1 << 32)][k % 2]
         host = hosts[k % len(hosts)]
         cmd, app = [(0x110, 4), (0x101, 0), (0x118, 0)][k % 3]
-        for j, (fl, hbh) in enumerate([(0x80, 0x5000 + k), (0x90, 0x5000 + k), (0x90, 0x6000 + k), (0xd0, 0x5000 + k)]):
+        top = 0xfffffffe if k % 4 == 3 else None        # (every fourth group: Hop-by-Hop ids fffffffe, ffffffff, 0, 1 in that order)
+        for j, (fl, hbh) in enumerate([(0x80, 0x5000 + k), (0x90, 0x5000 + k), (0x90, 0x6000 + k), (0xd0, 0x5000 + k)] if top is None else
+                                      [(0x80, 0xfffffffe), (0x80, 0xffffffff), (0x80, 0), (0x80, 1)]):
             ops = [("ADDAVP", 264, None, 0x40, ("L", ("id", host))), ("ADDAVP", 296, None, 0x40, ("L", ("id", b"realm.example.com")))]
             if j >= 2:
                 ops.append(("ADDAVP", 415, None, 0x40, ("L", ("u32", j))))
@@ -596,6 +606,27 @@ def server_scenarios(rng, eng, msgs, n, tier):
             chunks = [stream] if r.chance(1, 2) else random_chunking(r, stream)
             case = f"SV b {rs(chunks)} {ws([])} {len(frames)} " + " ".join("A " + a[0][2:] for a in answers)
             out.append((case, ("ret", xb(b"".join(a[1] for a in answers))), "retransmission-origin-host", len(frames)))
+    # retransmitted requests (T flag) whose handler answers with the request's flags minus R - T, P, E and their combinations kept: the
+    # answer written is the handler's, flag octet included
+    for k, afl in enumerate([0x10, 0x50, 0x30, 0x70, 0x20, 0x40, 0x60, 0x00]):
+        grp = omsgs[4 * (k % (len(omsgs) // 4)):4 * (k % (len(omsgs) // 4)) + 4]
+        ans_line = hist_line("b", ("NEW", 272, 4, afl, 0xa00 + k, 0xa01 + k), [("ADDAVP", 268, None, 0x40, ("L", ("u32", 2001 if not afl & 0x20 else 3002)))])
+        aenc = core.run_sharded([eng.harness, "codec"], eng.prelude, [ans_line], shards=1)[0]
+        if not (aenc.startswith("R ok") and " ENC x" in aenc):
+            raise core.MachineryError("could not build an answer with flags %x" % afl)
+        abytes = bytes.fromhex(aenc[aenc.rindex(" ENC ") + 6:].split()[0])
+        case = f"SV b {rs([grp[1][1] + grp[0][1]])} {ws([])} 2 A {ans_line[2:]} A {ans_line[2:]}"
+        exp = f"SV closed CALLS 2 [{grp[1][2]}] [{grp[0][2]}] WRITTEN {xb(abytes + abytes)}"
+        out.append((case, exp, "answer-flags-kept", 2))
+    # a peer that stops reading for 12 s / 31 s (virtual time) in the middle of an answer and then reads on: the write waits, the
+    # answer goes out whole, the requests already received are handled
+    for k, pause in enumerate(["t:2ee0", "t:7918"]):
+        r = rng.fork(f"wpause{k}")
+        reqs = [msgs[r.below(len(msgs))] for _ in range(3)]
+        answers = [msgs[r.below(len(msgs))] for _ in range(3)]
+        case = f"SV g {rs([b''.join(q[1] for q in reqs)])} {ws([5, pause, 3, pause, 1 << 20])} 3 " + " ".join("A " + a[0][2:] for a in answers)
+        exp = "SV closed CALLS 3" + "".join(f" [{q[2]}]" for q in reqs) + f" WRITTEN {xb(b''.join(a[1] for a in answers))}"
+        out.append((case, exp, "peer-stops-reading-for-a-while", 3))
     # answers that carry Origin-Host / Origin-Realm (as real answers do), then a long silence (31 s, 61 s, an hour of virtual time), then
     # the next request, then a silence before the peer closes: the connection loop writes answers - it does not speak on its own
     for k in range(6 if tier == "quick" else 60):
